@@ -3,7 +3,7 @@
 #   tools/run_on_mutant.sh <dir with patch.diff> <PROP> [quick|thorough] [extra ./check args]
 set -u
 D="$1"; P="$2"; T="${3:-quick}"; shift 3 2>/dev/null || shift 2
-MV=/tmp/mv
+MV=${MV:-/tmp/mv}
 cd $MV && git checkout -q --detach main 2>/dev/null; git reset -q --hard; rm -f tests/verif_demo.rs
 (git apply --3way "$D/patch.diff" 2>/dev/null || git apply "$D/patch.diff") || { echo "patch does not apply"; exit 2; }
 git reset -q
